@@ -349,6 +349,39 @@ def body_of(fn: ast.FunctionDef, t: dict) -> tuple[list[ast.stmt], str | None]:
     raise Unsupported("loop not found")
 
 
+def normalise(fn: ast.FunctionDef, t: dict) -> ast.FunctionDef:
+    """Make the translation independent of the NAMES the source happens to use: parameters are renamed, by position,
+    to the names of the Lean binder (whole-function targets only), and local variables that are assigned a dict
+    (literal, comprehension, `dict(...)`) are recognised as dictionaries whatever they are called."""
+    import copy
+    import re as _re
+    fn = copy.deepcopy(fn)
+    if not t.get("slice") and not t.get("attrs"):
+        want = [n for grp in _re.findall(r"\(([^:()]*):", t["binder"]) for n in grp.split()]
+        have = [a.arg for a in fn.args.args if a.arg != "self"]
+        if len(want) == len(have):
+            ren = {h: w for h, w in zip(have, want) if h != w}
+            if ren:
+                class R(ast.NodeTransformer):
+                    def visit_Name(self, n):
+                        return ast.copy_location(ast.Name(id=ren.get(n.id, n.id), ctx=n.ctx), n)
+
+                    def visit_arg(self, n):
+                        n.arg = ren.get(n.arg, n.arg)
+                        return n
+                fn = R().visit(fn)
+                t["skip"] = list(t.get("skip", []))
+                t["dicts"] = [ren.get(d, d) for d in t.get("dicts", [])]
+    dicts = set(t.get("dicts", []))
+    for node in ast.walk(fn):
+        if isinstance(node, ast.Assign) and len(node.targets) == 1 and isinstance(node.targets[0], ast.Name):
+            v = node.value
+            if isinstance(v, (ast.Dict, ast.DictComp)) or (isinstance(v, ast.Call) and isinstance(v.func, ast.Name) and v.func.id == "dict"):
+                dicts.add(node.targets[0].id)
+    t["dicts"] = sorted(dicts)
+    return fn
+
+
 def translate_all() -> tuple[str, list[str]]:
     out = ["/- GENERATED by harness/translate_fns.py from /repo's sources — do not edit. -/",
            "import Robotools.Generated.Prelude", "namespace Robotools.Generated", ""]
@@ -360,6 +393,8 @@ def translate_all() -> tuple[str, list[str]]:
             fn = find_func(ast.parse((REPO / rel).read_text(encoding="utf-8")), fname)
             if fn is None:
                 raise Unsupported("function not found")
+            t = dict(t)
+            fn = normalise(fn, t)
             stmts, final = body_of(fn, t)
             body = Tr(t).block(stmts, "  ", final)
             what = "the per-well step of the loop of " if t.get("slice") else ""
